@@ -197,7 +197,9 @@ def observe(case: dict, config: str, rng: random.Random, with_user: bool = False
         for tb in (loads_tbl, user_d):
             xs += [res[1] for _, res in tb if res[0] == "ok"]
         unm_tbl.append((0, ("ok", [(x, call(I, r, I.objs[x])) for x in dict.fromkeys(xs)])))
-    isb = [(i, bool(inspection.isbytestype(t))) for i, t in enumerate(types)]
+    # bytes-like: for the declared T the harness's OWN description decides (a bytes-like root, however wrapped), not the
+    # implementation's predicate -- otherwise the model would follow the code wherever the code mis-classifies T
+    isb = [(0, bool(case.get("bytes_t"))), (1, bool(inspection.isbytestype(types[1])))]
 
     def o2r(o):
         return ("ok", I(o[1])) if o[0] == "ok" else ("raise", o[1])
